@@ -48,11 +48,20 @@ func (s *kvStore) PeekState() (storeState, func()) {
 	return s.data, s.mu.RUnlock
 }
 
-// apply writes operations directly into the map under the write lock.
+// apply writes operations directly into the map under the write lock. An operation
+// marked as recovered only replaces the entry it is the feedback for: feedback for an
+// older version can arrive after the key has been overwritten, and must not stop the
+// newer operation from being gossiped.
 func (s *kvStore) apply(ops []Operation) {
 	s.mu.Lock()
 	defer s.mu.Unlock()
 	for _, op := range ops {
+		if op.state == gossipStateRecovered {
+			cur, ok := s.data[string(op.Key)]
+			if !ok || cur.Version != op.Version || cur.Leaseholder != op.Leaseholder {
+				continue
+			}
+		}
 		s.data[string(op.Key)] = op
 	}
 }
